@@ -474,8 +474,8 @@ func instrString(in ssa.Instruction) string {
 	switch x := in.(type) {
 	case *ssa.Return:
 		var rs []string
-		for _, r := range x.Results {
-			rs = append(rs, valString(r))
+		for i := range x.Results {
+			rs = append(rs, valString(retOperand(x, i)))
 		}
 		return "return " + strings.Join(rs, ", ")
 	case *ssa.Call:
@@ -588,6 +588,47 @@ func errNilEdge(c *Cond) ssa.Value {
 	return nil
 }
 
+// retOperand returns the idx-th returned value, looking through the result cells go/ssa introduces in functions
+// with defers (store to the cell, RunDefers, load, return).
+func retOperand(ret *ssa.Return, idx int) ssa.Value {
+	v := ret.Results[idx]
+	u, ok := v.(*ssa.UnOp)
+	if !ok || u.Op != token.MUL {
+		return v
+	}
+	a, ok := u.X.(*ssa.Alloc)
+	if !ok {
+		return v
+	}
+	// the closest preceding store to the cell in the same block, else the unique store
+	b := ret.Block()
+	var last ssa.Value
+	for _, in := range b.Instrs {
+		if in == ssa.Instruction(u) {
+			break
+		}
+		if st, ok := in.(*ssa.Store); ok && st.Addr == ssa.Value(a) {
+			last = st.Val
+		}
+	}
+	if last != nil {
+		return last
+	}
+	// look in the unique predecessor chain
+	for pb := b; len(pb.Preds) == 1; {
+		pb = pb.Preds[0]
+		for i := len(pb.Instrs) - 1; i >= 0; i-- {
+			if st, ok := pb.Instrs[i].(*ssa.Store); ok && st.Addr == ssa.Value(a) {
+				return st.Val
+			}
+		}
+	}
+	if st := allocStores(a); len(st) == 1 {
+		return st[0]
+	}
+	return v
+}
+
 // isFailureReturn reports whether the error result of ret is provably non-nil:
 // a freshly constructed error, a package-level error variable, or a value e reachable only under "e != nil".
 func isFailureReturn(fn *ssa.Function, ret *ssa.Return) bool {
@@ -595,7 +636,16 @@ func isFailureReturn(fn *ssa.Function, ret *ssa.Return) bool {
 	if idx < 0 || idx >= len(ret.Results) {
 		return false
 	}
-	return provablyNonNil(fn, ret.Results[idx], ret)
+	return provablyNonNil(fn, retOperand(ret, idx), ret)
+}
+
+// isNilReturn reports whether the error result of ret is the constant nil.
+func isNilReturn(fn *ssa.Function, ret *ssa.Return) bool {
+	idx := errResultIndex(fn)
+	if idx < 0 || idx >= len(ret.Results) {
+		return false
+	}
+	return isNilConst(strip(retOperand(ret, idx)))
 }
 
 func provablyNonNil(fn *ssa.Function, v ssa.Value, at ssa.Instruction) bool {
